@@ -14,6 +14,8 @@ WORDS = ["alpha", "Beta", "x1", "kinase", "γ-sub"]
 
 
 def _text(rnd, allow_comma_quote=True):
+    if allow_comma_quote and rnd.random() < 0.04:
+        return rnd.choice([" ", "\t", "  ", " \t ", "\n", "\r"])  # non-empty but blank: still text to be carried
     parts = []
     for _ in range(rnd.randrange(1, 4)):
         parts.append(rnd.choice(WORDS))
